@@ -21,7 +21,12 @@ use serde::de::{DeserializeSeed, MapAccess, SeqAccess};
 
 use super::{Config, SchemaAwareDeserializer};
 use crate::schema::MapSchema;
-use crate::{Error, Schema, schema::ArraySchema, util::zag_i64};
+use crate::{
+    Error, Schema,
+    error::Details,
+    schema::ArraySchema,
+    util::{safe_len, zag_i64},
+};
 
 /// Deserialize sequences from an Avro array.
 pub struct BlockDeserializer<'s, 'r, R: Read, S: Borrow<Schema>> {
@@ -30,6 +35,8 @@ pub struct BlockDeserializer<'s, 'r, R: Read, S: Borrow<Schema>> {
     config: Config<'s, S>,
     /// Track where we are in reading the array
     remaining: Option<u64>,
+    /// The number of items all blocks read so far declared
+    total: u64,
 }
 
 impl<'s, 'r, R: Read, S: Borrow<Schema>> BlockDeserializer<'s, 'r, R, S> {
@@ -44,12 +51,15 @@ impl<'s, 'r, R: Read, S: Borrow<Schema>> BlockDeserializer<'s, 'r, R, S> {
             &schema.items
         };
         let remaining = Self::read_block_header(reader)?;
-        Ok(Self {
+        let mut this = Self {
             reader,
             schema,
             config,
             remaining,
-        })
+            total: 0,
+        };
+        this.account_block()?;
+        Ok(this)
     }
 
     pub fn map(
@@ -63,12 +73,32 @@ impl<'s, 'r, R: Read, S: Borrow<Schema>> BlockDeserializer<'s, 'r, R, S> {
             &schema.types
         };
         let remaining = Self::read_block_header(reader)?;
-        Ok(Self {
+        let mut this = Self {
             reader,
             schema,
             config,
             remaining,
-        })
+            total: 0,
+        };
+        this.account_block()?;
+        Ok(this)
+    }
+
+    /// Bound the number of items the blocks of one array or map declare.
+    ///
+    /// Items can be zero bytes wide (`null`, records without fields), so the amount of input does
+    /// not bound the count. The generic decoder bounds it through the memory it reserves for the
+    /// items, here the declared count itself has to stay below the allocation limit.
+    fn account_block(&mut self) -> Result<(), Error> {
+        if let Some(remaining) = self.remaining {
+            self.total = self
+                .total
+                .checked_add(remaining)
+                .ok_or(Details::IntegerOverflow)?;
+            let total = usize::try_from(self.total).map_err(|_| Details::IntegerOverflow)?;
+            safe_len(total)?;
+        }
+        Ok(())
     }
 
     fn read_block_header(reader: &mut R) -> Result<Option<u64>, Error> {
@@ -103,6 +133,7 @@ impl<'de, 's, 'r, R: Read, S: Borrow<Schema>> SeqAccess<'de> for BlockDeserializ
             remaining -= 1;
             if remaining == 0 {
                 self.remaining = Self::read_block_header(self.reader)?;
+                self.account_block()?;
             } else {
                 self.remaining = Some(remaining);
             }
@@ -154,6 +185,7 @@ impl<'de, 's, 'r, R: Read, S: Borrow<Schema>> MapAccess<'de> for BlockDeserializ
         remaining -= 1;
         if remaining == 0 {
             self.remaining = Self::read_block_header(self.reader)?;
+            self.account_block()?;
         } else {
             self.remaining = Some(remaining);
         }
@@ -184,6 +216,7 @@ impl<'de, 's, 'r, R: Read, S: Borrow<Schema>> MapAccess<'de> for BlockDeserializ
             remaining -= 1;
             if remaining == 0 {
                 self.remaining = Self::read_block_header(self.reader)?;
+                self.account_block()?;
             } else {
                 self.remaining = Some(remaining);
             }
